@@ -337,6 +337,7 @@ def run(tier):
     sub = Report("C03", tier, "context-rule logic")
     for fn, (spec, own, scan_test) in sorted(cr.RULES.items()):
         C03.check_rule(prog, sub, fn, spec, scan_test)
+    l4.check_predicates(prog, sub, cr.CONTEXT_PREDICATES)  # the predicates the rules ask are the tables' sets
     rep.include(sub, "C03")
     rep.extra["exhaustive"] = True
     rep.assumptions += ["Chars/Enumerate as documented: positions are counted in code points", "the rules' own semantics are C03; the derived properties C14"]
